@@ -39,7 +39,8 @@ RULE = ("cases = (operation in read/write/fill/link read/link write/struct field
         "distinct canonical JSON of the case; plus sessions = 2-5 such operations through ONE controller on different "
         "chips, some preceded by a software-version query to an application core that reports another buffer size, "
         "some with the struct definitions replaced mid-session (what boot() does) followed by accesses to fields "
-        "touched before the swap")
+        "touched before the swap, some issued alternately by two controllers on the same machine; write payloads are "
+        "bytes, bytearray or memoryview")
 
 BUFS = [4, 8, 12, 16, 64, 128, 256, 256, 256, 260, 384, 508, 512, 5, 6, 7, 66, 130, 250, 255]
 
@@ -76,6 +77,8 @@ def gen_case(rng, struct_fields):
          "p": rng.randrange(18), "addr": base + align, "len": ln, "timeout": 4}
     if op in ("write", "link_write"):
         c["data"] = [rng.randrange(256) for _ in range(ln)]
+        if rng.random() < 0.3:
+            c["buf_kind"] = rng.choice(["bytearray", "memoryview"])
     if op in ("link_read", "link_write"):
         c["link"] = rng.randrange(6)
         if rng.random() < 0.8:
@@ -180,12 +183,13 @@ def run_impl(case, table, env=None):
                          txt.ljust(field_size(pack, cnt), b"\x00"))
     before = {k: dict(v) for k, v in machine.mem.items()}
     with simnet.installed(net):
-        if env is not None and "mc" in env:
-            mc = env["mc"]
+        mck = "mc%d" % case.get("ctl", 0)       # a session may use two controllers on the same machine
+        if env is not None and mck in env:
+            mc = env[mck]
         else:
             mc = simmachine.make_controller(net, timeout=float(case["timeout"]))
             if env is not None:
-                env["mc"] = mc
+                env[mck] = mc
         mc._window_size = case["window"]
         x, y, p = case["x"], case["y"], case["p"]
         op = case["op"]
@@ -209,7 +213,11 @@ def run_impl(case, table, env=None):
                 got = mc.read(case["addr"], case["len"], x, y, p)
                 res.update(want=list(want), got=list(got))
             elif op == "write":
-                mc.write(case["addr"], bytes(case["data"]), x, y, p)
+                payload = {"bytearray": bytearray, "memoryview": lambda b: memoryview(bytes(b))}.get(
+                    case.get("buf_kind"), bytes)(case["data"])
+                mc.write(case["addr"], payload, x, y, p)
+                if bytes(payload) != bytes(case["data"]):
+                    res["payload_modified"] = True
                 res["expect_mem"] = {(x, y): (case["addr"], case["data"])}
             elif op == "fill":
                 mc.fill(case["addr"], case["fill"], case["len"], x, y, p)
@@ -225,7 +233,11 @@ def run_impl(case, table, env=None):
                 res.update(want=list(want), got=list(got))
             elif op == "link_write":
                 nx, ny = machine.neighbour(x, y, case["link"])
-                mc.write_across_link(case["addr"], bytes(case["data"]), x, y, case["link"])
+                payload = {"bytearray": bytearray, "memoryview": lambda b: memoryview(bytes(b))}.get(
+                    case.get("buf_kind"), bytes)(case["data"])
+                mc.write_across_link(case["addr"], payload, x, y, case["link"])
+                if bytes(payload) != bytes(case["data"]):
+                    res["payload_modified"] = True
                 res["expect_mem"] = {(nx, ny): (case["addr"], case["data"])}
             elif op in ("struct", "vcpu"):
                 sname = "sv" if op == "struct" else "vcpu"
@@ -346,6 +358,8 @@ def eval_cases(ctx, cases, table, env=None):
                     ctx.violation("write-length-mismatch", "announced %d bytes, carries %d" % (n, len(q["data"])), desc)
             elif q["cmd"] in (17, 18) and q["arg2"] > case["buf"]:
                 ctx.violation("command-exceeds-buffer", "a link command moves %d bytes, buffer is %d" % (q["arg2"], case["buf"]), desc)
+        if res.get("payload_modified"):
+            ctx.tag("caller_buffer_modified_by_write")      # not in the property text: recorded only
         err = res.get("error")
         if err in ("Timeout",) and res["faults"]:
             ctx.tag("gave_up_after_retries")
@@ -436,6 +450,7 @@ def run(ctx):
         chips = [(0, 0), (0, 1), (1, 0), (1, 1)]
         ctx.rng.shuffle(chips)
         pre = ctx.rng.choice(["", "", "sver", "restruct", "restruct", "sverfail"])
+        two_ctl = pre in ("", "sver") and ctx.rng.random() < 0.5
         n_steps = ctx.rng.randrange(2, 5) + (1 if pre else 0)
         swap_at = ctx.rng.randrange(1, n_steps - 1) if n_steps > 2 else 1
         for i in range(n_steps):
@@ -453,6 +468,8 @@ def run(ctx):
             c.update(buf=buf, window=window, script={}, x=chips[i % 4][0], y=chips[i % 4][1], session_step=i)
             if "data" in c:
                 c["data"] = c["data"][:c["len"]]
+            if two_ctl:
+                c["ctl"] = ctx.rng.randrange(2)
             if i == 0 and pre == "sverfail":
                 # every try of the controller's first buffer-size query is lost (the call raises the timeout
                 # error); the program keeps using the controller afterwards
